@@ -4,4 +4,22 @@ s = open('/verif/DESIGN.md').read()
 t = subprocess.run(['python3', '/verif/tools/seed_table.py'], capture_output=True, text=True).stdout
 a, b = s.index('<!-- SEEDS-BEGIN -->') + len('<!-- SEEDS-BEGIN -->'), s.index('<!-- SEEDS-END -->')
 open('/verif/DESIGN.md', 'w').write(s[:a] + '\n' + t + s[b:])
+s = open('/verif/DESIGN.md').read()
+import glob, json
+n = 0; missed = []; per = {}
+for f in sorted(glob.glob('/verif/seeded/*/meta.json')):
+    m = json.load(open(f)); n += 1
+    d = m.get('detected_by', '').lower()
+    per[m['property']] = per.get(m['property'], 0) + 1
+    if any(w in d for w in ('missed', 'added after', 'strengthened', 'first run inconclusive')):
+        missed.append(m['seed_id'])
+nosuite = [json.load(open(f))['seed_id'] for f in sorted(glob.glob('/verif/seeded/*/meta.json')) if 'existing_test_suite' not in json.load(open(f))]
+txt = (f"Of the {n} changes ({', '.join(f'{k}: {v}' for k, v in sorted(per.items()))}), {n - len(missed)} were caught by the property's own "
+       f"check as it stood when the change arrived and {len(missed)} were missed at first ({', '.join(missed)}); all {n} are "
+       f"caught by the quick tier of the property's own check now."
+       + (f" lerax's own suite with the change applied: see the last column (not yet run for: {', '.join(nosuite)})." if nosuite else
+          " With every change applied lerax's own suite still gives 160 passed and the 7 baseline failures (last column)."))
+import textwrap
+a, b = s.index('<!-- STATS-BEGIN -->') + len('<!-- STATS-BEGIN -->'), s.index('<!-- STATS-END -->')
+open('/verif/DESIGN.md', 'w').write(s[:a] + '\n' + textwrap.fill(txt, 100) + '\n' + s[b:])
 print("updated")
